@@ -5,6 +5,7 @@
 //!   <id> decode <sjis-hex>                   sub-codec self-check, decode direction
 //!   <id> faithful                            `Faithful` assumption re-validated on all of Unicode (thorough)
 //!   <id> ser <LE|BE> <data> <S> <P> <L> <C>  stream 1: content built through shuffled API calls
+//!   <id> serp <LE|BE> <data> <S> <P> <L> <C> same as `ser`, additionally repeated in 4 fresh child processes
 //!   <id> img <LE|BE> <image> <data> <S> <P> <L>   stream 2: foreign conforming image of the content
 //!   <id> raw <LE|BE> <image>                 malformed / mutated image (outside the property: model tie only)
 //! Content fields:  S = `addr:hex,…` strings, P = `addr:target,…` pointers,
@@ -724,11 +725,15 @@ pub fn gen(seed: u64, tier: &str) -> Vec<String> {
         };
         lines.push(format!("c02.d2 ser BE {}", d2.fields(true)));
     }
-    let (n_ser, n_img, n_raw) = if thorough { (60_000, 30_000, 6_000) } else { (6_000, 3_000, 800) };
+    let (n_ser, n_img, n_raw) = if thorough { (200_000, 100_000, 20_000) } else { (6_000, 3_000, 800) };
     for i in 0..n_ser {
         let max_cells = if i % 10 == 0 { 40 } else if i % 3 == 0 { 6 } else { 16 };
         let c = gen_content(&mut rng, max_cells, true);
         lines.push(format!("c01.s{:06} ser {} {}", i, end_tag(c.big), c.fields(true)));
+    }
+    for i in 0..(if thorough { 300 } else { 30 }) {
+        let c = gen_content(&mut rng, 12, true);
+        lines.push(format!("c02.p{:06} serp {} {}", i, end_tag(c.big), c.fields(true)));
     }
     let mut images: Vec<(bool, Vec<u8>)> = Vec::new();
     for i in 0..n_img {
@@ -807,6 +812,30 @@ fn foreign_text(b: &BinArchive) -> bool {
     b.all_labels().iter().any(|(_, n)| !inside(n))
 }
 
+/// `ser` repeated in 4 fresh processes (fresh per-process hash seeds): all four must print the same line.
+fn run_serp(line: &str, f: &[&str]) -> String {
+    let here = run_ser(&line.replacen(" serp ", " ser ", 1), f);
+    let exe = std::env::current_exe().unwrap();
+    // <worktree>/work/target/<profile>/mila-harness  ->  <worktree>/work
+    let work = exe.parent().and_then(|p| p.parent()).and_then(|p| p.parent()).unwrap().to_path_buf();
+    let tag = format!("binser-proc-{}-{}", std::process::id(), fnv(line));
+    let cases = work.join(format!("{}.cases", tag));
+    std::fs::write(&cases, line.replacen(" serp ", " ser ", 1) + "\n").unwrap();
+    let mut same = true;
+    for i in 0..4 {
+        let out = work.join(format!("{}.{}.out", tag, i));
+        let st = std::process::Command::new(&exe).arg("run").arg("binser").arg(&cases).arg(&out).status();
+        let text = std::fs::read_to_string(&out).unwrap_or_default();
+        let _ = std::fs::remove_file(&out);
+        let payload = text.trim_end().splitn(2, ' ').nth(1).unwrap_or("").to_string();
+        if st.map(|s| !s.success()).unwrap_or(true) || payload != here {
+            same = false;
+        }
+    }
+    let _ = std::fs::remove_file(&cases);
+    format!("{} procs={}", here, same as u8)
+}
+
 fn run_img(f: &[&str]) -> String {
     let big = f[2] == "BE";
     let img = unhex(f[3]);
@@ -846,6 +875,7 @@ pub fn run_line(_st: &mut super::State, line: &str) -> String {
         }
         "faithful" => faithful_report(),
         "ser" => run_ser(line, &f),
+        "serp" => run_serp(line, &f),
         "img" | "raw" => run_img(&f),
         _ => "bad-case".to_string(),
     }) {
